@@ -43,7 +43,7 @@ def path_witness(model, st, p, cap=16):
     }
 
 
-def generic_witness(model, st, args):
+def generic_witness(model, st, args, final=None):
     out = {}
     for k, v in args.items():
         out[k] = _conv(model, st, v)
